@@ -55,6 +55,7 @@ VSPhshutdown(void)
 {
     return SUCCEED;
 }
+#ifndef VRW_LOG
 /* Hread/Hwrite over the ghost store: the caller must pass a positive length and a buffer that
    holds it (checked); transfers are whole or fail */
 int32
@@ -83,6 +84,7 @@ Hwrite(int32 access_id, int32 length, const void *data)
         g_store_len = g_pos;
     return length;
 }
+#endif /* !VRW_LOG */
 int
 Hinquire(int32 access_id, int32 *pfile_id, uint16 *ptag, uint16 *pref, int32 *plength, int32 *poffset, int32 *pposn,
          int16 *paccess, int16 *pspecial)
@@ -91,6 +93,7 @@ Hinquire(int32 access_id, int32 *pfile_id, uint16 *ptag, uint16 *pref, int32 *pl
         *pposn = g_pos;
     return SUCCEED;
 }
+#ifndef VRW_LOG
 /* DFKconvert (dfconv.c, C06): trusted stand-in -- strided byte copy of num_elm elements of the
    type's size (1-byte and 2-byte types only in the bounded runs), with 16-bit elements byte-swapped
    the way the real DFKsb2b does on a little-endian host.  Strides 0,0 mean contiguous. */
@@ -120,6 +123,21 @@ DFKconvert(void *source, void *dest, int32 ntype, int32 num_elm, int16 acc_mode,
     return 0;
 }
 
+#else /* VRW_LOG */
+/* malloc may fail in cbmc 6 (and in the real world): logged, so that "a well-formed request succeeds"
+   can be stated "allocation failure apart" */
+int g_malloc_failed;
+static void *
+h4v_malloc(size_t n)
+{
+    void *p = malloc(n);
+    if (p == NULL)
+        g_malloc_failed = 1;
+    return p;
+}
+#define malloc(n) h4v_malloc(n)
+#endif /* VRW_LOG */
+
 #include "vrw.c"
 
 /* ---------------- contracts ---------------- */
@@ -146,6 +164,286 @@ int32 VSseek(int32 vkey, int32 eltpos)
     /* a record beyond the 2^31-1 byte limit cannot be addressed: refused */
     __CPROVER_ensures((!SEEK_REFUSED && SEEK_FAR) ==> __CPROVER_return_value == FAIL)
     __CPROVER_ensures((!SEEK_REFUSED && !SEEK_FAR) ==> __CPROVER_return_value == (g_seek_ret == FAIL ? FAIL : eltpos));
+
+
+#ifdef VRW_LOG
+/* ======================================================================================================
+   LOG MODE (-DVRW_LOG): the transfer kernel of VSread/VSwrite with stubs that LOG instead of copying.
+   Sizes are constants per run: the record layout VL (field types/orders/sizes -> L_IVS bytes per stored
+   record) and the read list RL (-> L_UVS bytes per record in the user's buffer).  Record COUNTS stay
+   symbolic (up to several transfer-buffer chunks with the REAL VDATA_BUFFER_MAX): nothing is copied, so a
+   request of 10^5..10^6 records costs nothing.  Universal statements use a ghost record g_r of the request
+   and a ghost ordinal g_cvk of the DFKconvert calls issued for one chunk.
+   ====================================================================================================== */
+#ifndef VL
+#define VL 1
+#endif
+#ifndef RL
+#define RL 0
+#endif
+#if VL == 1 /* two fields: f0 = 3 x uint8 (3 bytes), f1 = 2 x uint16 (4 bytes): 7-byte records */
+#define L_NF  2
+#define L_IVS 7
+#define L_T0 DFNT_UINT8
+#define L_O0 3
+#define L_S0 3
+#define L_T1 DFNT_UINT16
+#define L_O1 2
+#define L_S1 4
+#elif VL == 2 /* one field: 3 x int32: 12-byte records (case E) */
+#define L_NF  1
+#define L_IVS 12
+#define L_T0 DFNT_INT32
+#define L_O0 3
+#define L_S0 12
+#define L_T1 DFNT_INT32
+#define L_O1 1
+#define L_S1 0
+#elif VL == 3 /* two fields: f0 = 1 x uint8, f1 = 1 x int32: 5-byte records */
+#define L_NF  2
+#define L_IVS 5
+#define L_T0 DFNT_UINT8
+#define L_O0 1
+#define L_S0 1
+#define L_T1 DFNT_INT32
+#define L_O1 1
+#define L_S1 4
+#elif VL == 4 /* one field: 1 x uint8: 1-byte records (counts up to the int32 limit) */
+#define L_NF  1
+#define L_IVS 1
+#define L_T0 DFNT_UINT8
+#define L_O0 1
+#define L_S0 1
+#define L_T1 DFNT_UINT8
+#define L_O1 1
+#define L_S1 0
+#endif
+/* read lists: 0 = every field in table order, 1 = {f1} (a subset: the user's record is SMALLER than the
+   stored one), 2 = {f1, f0} (a permutation), 3 = {f0} */
+#if L_NF == 1 || RL == 3
+#define L_RN 1
+#define L_I0 0
+#define L_I1 0
+#define L_UVS L_S0
+#elif RL == 0
+#define L_RN 2
+#define L_I0 0
+#define L_I1 1
+#define L_UVS L_IVS
+#elif RL == 1
+#define L_RN 1
+#define L_I0 1
+#define L_I1 0
+#define L_UVS L_S1
+#elif RL == 2
+#define L_RN 2
+#define L_I0 1
+#define L_I1 0
+#define L_UVS L_IVS
+#endif
+#define L_TSIZE(t) ((t) == DFNT_UINT8 ? 1 : (t) == DFNT_UINT16 ? 2 : 4)
+
+/* ---- ghost log ---- */
+const uint8 *g_ubuf;     /* the user's buffer ...                                   */
+long long    g_ubuf_len; /* ... and the bytes of it the request may touch           */
+int          g_mode;     /* DFACC_READ / DFACC_WRITE: direction of the call         */
+int32        g_p0;       /* record position on entry                                */
+int32        g_elt_len;  /* bytes in the data element (reads beyond it fail)        */
+int32        g_r;        /* ghost record of the request, 0 <= g_r < nelt            */
+int32        g_cvk;      /* ghost ordinal of a DFKconvert call within one chunk     */
+int32        g_io_fail_at; /* the transfer with this ordinal fails (0: none)        */
+int32        g_io_failed;
+long long    g_io_total; /* bytes transferred                                       */
+int32        g_pos0;     /* byte position on entry = g_p0 * L_IVS                   */
+int32        g_rpos;     /* byte position of the ghost record = (g_p0 + g_r) * L_IVS (set by the harness) */
+int32        g_hit_n;    /* transfers that carry record g_r                         */
+int32        g_hit_pos;  /* file position of that transfer                          */
+int32        g_hit_before; /* bytes of the request transferred before it            */
+int32        g_hit_len;  /* its length in bytes                                     */
+int32        g_cv_n;     /* DFKconvert calls since the last transfer                */
+int32        g_cv_total, g_cv_bad;
+/* convert call g_cvk of the chunk being assembled (write) ... */
+int          pend_set;
+const uint8 *pend_mem, *pend_xfr;
+int32        pend_num, pend_ss, pend_ds, pend_type;
+/* ... and of the chunk that carries record g_r */
+int          fin_set;
+const uint8 *fin_mem, *fin_xfr;
+int32        fin_num, fin_ss, fin_ds, fin_type;
+int          g_hit_live;
+/* what convert call k of a chunk must look like (filled in by the harness from the layout) */
+int32 g_exp_ncv, g_exp_uoff[8], g_exp_xoff[8], g_exp_type[8], g_exp_ss, g_exp_ds, g_exp_nmul;
+
+#ifdef H4V_CBMC
+#define SAME_OBJ(p, q) (__CPROVER_POINTER_OBJECT(p) == __CPROVER_POINTER_OBJECT(q))
+#else
+#define SAME_OBJ(p, q) 1
+#endif
+
+static int32
+h4v_xfer(int32 access_id, int32 length, const void *data)
+{
+    g_io_n++;
+    H4V_CHECK(access_id == g_vs->aid, "transfer on the vdata's access id");
+    H4V_CHECK(length > 0, "transfer sub-request has positive length");
+    H4V_CHECK(data == (const void *)Vtbuf && Vtbuf != NULL && (uint32)length <= Vtbufsize, "the transfer buffer holds the bytes transferred");
+    if (g_io_n == g_io_fail_at || length <= 0 || (long long)g_pos + length > 2147483647LL ||
+        (g_mode == DFACC_READ && (long long)g_pos + length > g_elt_len)) {
+        g_io_failed = 1;
+        return FAIL;
+    }
+    g_hit_live = 0;
+    if (g_rpos >= g_pos && (long long)g_rpos < (long long)g_pos + length) { /* this transfer carries the ghost record */
+        g_hit_n++;
+        g_hit_pos    = g_pos;
+        g_hit_before = (int32)g_io_total;
+        g_hit_len    = length;
+        g_hit_live   = 1;
+        if (g_mode == DFACC_WRITE) { /* the conversions for this chunk came first */
+            fin_set  = pend_set;
+            fin_mem  = pend_mem;
+            fin_xfr  = pend_xfr;
+            fin_num  = pend_num;
+            fin_ss   = pend_ss;
+            fin_ds   = pend_ds;
+            fin_type = pend_type;
+        }
+    }
+    pend_set = 0;
+    g_cv_n   = 0;
+    g_io_total += length;
+    g_pos += length;
+    return length;
+}
+int32
+Hread(int32 access_id, int32 length, void *data)
+{
+    H4V_CHECK(g_mode == DFACC_READ, "no Hread while writing");
+    return h4v_xfer(access_id, length, data);
+}
+int32
+Hwrite(int32 access_id, int32 length, const void *data)
+{
+    H4V_CHECK(g_mode == DFACC_WRITE, "no Hwrite while reading");
+    return h4v_xfer(access_id, length, data);
+}
+/* DFKconvert (dfconv.c, C06) logs: it remembers the call with ordinal g_cvk of each chunk (arguments as
+   given).  That the footprints of the call stay inside the user's nelt*uvsize bytes and inside the bytes
+   transferred follows from HIT_OK && CV_OK below (base, count and strides are pinned exactly) */
+int32
+DFKconvert(void *source, void *dest, int32 ntype, int32 num_elm, int16 acc_mode, int32 source_stride, int32 dest_stride)
+{
+    const uint8 *mem = (const uint8 *)(acc_mode == DFACC_READ ? dest : source);
+    const uint8 *xfr = (const uint8 *)(acc_mode == DFACC_READ ? source : dest);
+    g_cv_total++;
+    H4V_CHECK(acc_mode == g_mode, "DFKconvert direction");
+    if (num_elm <= 0) {
+        g_cv_bad = 1;
+        return FAIL;
+    }
+    if (g_cv_n == g_cvk) {
+        if (acc_mode == DFACC_WRITE) {
+            pend_set  = 1;
+            pend_mem  = mem;
+            pend_xfr  = xfr;
+            pend_num  = num_elm;
+            pend_ss   = source_stride;
+            pend_ds   = dest_stride;
+            pend_type = ntype;
+        }
+        else if (g_hit_live) {
+            fin_set  = 1;
+            fin_mem  = mem;
+            fin_xfr  = xfr;
+            fin_num  = num_elm;
+            fin_ss   = source_stride;
+            fin_ds   = dest_stride;
+            fin_type = ntype;
+        }
+    }
+    g_cv_n++;
+    return 0;
+}
+
+/* ---- contracts ---- */
+#define LOG_CLEAN                                                                                    \
+    (g_io_n == 0 && g_io_total == 0 && g_io_failed == 0 && g_hit_n == 0 && g_cv_n == 0 && g_cv_total == 0 && g_cv_bad == 0 &&  \
+     pend_set == 0 && fin_set == 0 && g_hit_live == 0 && g_malloc_failed == 0 && g_io_fail_at >= 0)
+#define LOG_ASSIGNS                                                                                  \
+    g_io_n, g_io_total, g_io_failed, g_hit_n, g_hit_pos, g_hit_before, g_hit_len, g_hit_live, g_cv_n, g_cv_total, g_cv_bad,  \
+        pend_set, pend_mem, pend_xfr, pend_num, pend_ss, pend_ds, pend_type, fin_set, fin_mem, fin_xfr, fin_num, fin_ss, \
+        fin_ds, fin_type, g_malloc_failed, g_pos, Vtbuf, Vtbufsize
+#define LAYOUT_WF                                                                                    \
+    (g_vs->wlist.ivsize == L_IVS && (g_vs->wlist.n == L_NF || g_vs->wlist.n == 0) && g_p0 >= 0 && (long long)g_pos == (long long)g_p0 * L_IVS && g_pos0 == g_pos &&  \
+     g_exp_ncv >= 1 && g_exp_ncv <= 8 && g_cvk >= 0 && g_cvk < g_exp_ncv && g_vs->nvertices >= 0 &&    \
+     (long long)g_vs->nvertices * L_IVS <= 2147483647LL)
+#define VTBUF_WF ((Vtbuf == NULL) == (Vtbufsize == 0))
+#define BAD_INTERLACE (interlace != FULL_INTERLACE && interlace != NO_INTERLACE)
+/* the chunk that carries the ghost record: exactly one transfer; it starts at a record boundary of the
+   request, at the file position of that record, and is a whole number of records long.
+   HF = records of the request in earlier chunks, HL = records in this chunk */
+#define HF (g_hit_before / L_IVS)
+#define HL (g_hit_len / L_IVS)
+#define HIT_OK(nelt)                                                                                 \
+    (g_hit_n == 1 && g_hit_before >= 0 && HF * L_IVS == g_hit_before && HL * L_IVS == g_hit_len && HF <= g_r && g_r < HF + HL &&  \
+     HF + HL <= (nelt) && g_hit_pos == g_pos0 + g_hit_before)
+/* convert call g_cvk of that chunk: user side at record HF of the user's buffer -- advanced by (records of
+   earlier chunks) x (size of the user's record) -- at the field's offset in the user's record; transfer-
+   buffer side at the field's offset in the stored record; as many elements as the chunk has records */
+#define CV_OK(uvs)                                                                                   \
+    (fin_set && fin_mem == g_ubuf + (long long)HF * (uvs) + g_exp_uoff[g_cvk] && fin_xfr == Vtbuf + g_exp_xoff[g_cvk] &&  \
+     fin_num == g_exp_nmul * HL && fin_type == g_exp_type[g_cvk] && fin_ss == g_exp_ss && fin_ds == g_exp_ds)
+
+#define RD_REFUSED                                                                                   \
+    (KEY_BAD || g_vs->aid == 0 || g_vs->nvertices == 0 || g_vs->wlist.n <= 0 || g_exist == FAIL || BAD_INTERLACE)
+int32 VSread(int32 vkey, uint8 buf[], int32 nelt, int32 interlace)
+    __CPROVER_requires(ENV_WF && LOG_CLEAN && LAYOUT_WF && VTBUF_WF && g_mode == DFACC_READ && buf == g_ubuf)
+    __CPROVER_requires(g_elt_len == g_vs->nvertices * L_IVS)
+    __CPROVER_assigns(LOG_ASSIGNS)
+    __CPROVER_frees(Vtbuf)
+    /* documented result: FAIL, or the number of records read (0 or positive) */
+    __CPROVER_ensures(__CPROVER_return_value == FAIL || (__CPROVER_return_value == nelt && nelt >= 0))
+    __CPROVER_ensures(RD_REFUSED ==> (__CPROVER_return_value == FAIL && g_io_n == 0 && g_cv_total == 0))
+    /* records that do not exist cannot be read */
+    __CPROVER_ensures((nelt > 0 && (long long)g_p0 + nelt > (long long)g_vs->nvertices) ==> __CPROVER_return_value == FAIL)
+    /* a request inside the table succeeds (I/O and allocation failure apart) */
+    __CPROVER_ensures((!RD_REFUSED && nelt > 0 && (long long)g_p0 + nelt <= (long long)g_vs->nvertices && !g_io_failed && !g_malloc_failed) ==>
+                      __CPROVER_return_value == nelt)
+    /* success: exactly nelt stored records were transferred and the position advanced by nelt records */
+    __CPROVER_ensures((__CPROVER_return_value == nelt && nelt > 0) ==>
+                      (g_io_total == (long long)nelt * L_IVS && (long long)g_pos == ((long long)g_p0 + nelt) * L_IVS && !g_cv_bad))
+    /* chunking: every record is carried by exactly one transfer, taken from ITS position in the file ... */
+    __CPROVER_ensures((__CPROVER_return_value == nelt && g_r >= 0 && g_r < nelt) ==> HIT_OK(nelt))
+    /* ... and delivered to ITS position in the user's buffer */
+    __CPROVER_ensures((__CPROVER_return_value == nelt && g_r >= 0 && g_r < nelt) ==> CV_OK(L_UVS))
+    __CPROVER_ensures(VTBUF_WF);
+
+#define WR_REFUSED                                                                                   \
+    (KEY_BAD || nelt <= 0 || g_vs->access != 'w' || g_exist == FAIL || g_vs->wlist.n == 0 || BAD_INTERLACE || g_vs->aid == 0)
+int32 VSwrite(int32 vkey, const uint8 buf[], int32 nelt, int32 interlace)
+    __CPROVER_requires(ENV_WF && LOG_CLEAN && LAYOUT_WF && VTBUF_WF && g_mode == DFACC_WRITE && buf == g_ubuf)
+    __CPROVER_assigns(LOG_ASSIGNS, g_vs->nvertices, g_vs->marked)
+    __CPROVER_frees(Vtbuf)
+    __CPROVER_ensures(__CPROVER_return_value == FAIL || __CPROVER_return_value == nelt)
+    __CPROVER_ensures(WR_REFUSED ==> (__CPROVER_return_value == FAIL && g_io_n == 0 && g_cv_total == 0))
+    /* a refused or failed write does not change the record count */
+    __CPROVER_ensures(__CPROVER_return_value == FAIL ==> g_vs->nvertices == __CPROVER_old(g_vs->nvertices))
+    /* C20: a table that would exceed 2^31-1 bytes is refused (no wrap-around of nelt*ivsize or of p+nelt) */
+    __CPROVER_ensures((nelt > 0 && ((long long)g_p0 + nelt) * L_IVS > 2147483647LL) ==> __CPROVER_return_value == FAIL)
+    __CPROVER_ensures((!WR_REFUSED && ((long long)g_p0 + nelt) * L_IVS <= 2147483647LL && !g_io_failed && !g_malloc_failed) ==>
+                      __CPROVER_return_value == nelt)
+    /* C07 bookkeeping: exactly nelt*ivsize bytes written in total, position advanced by nelt records,
+       record count = max(old count, p + nelt) -- also for a write that starts inside the table and runs past its end */
+    __CPROVER_ensures((__CPROVER_return_value == nelt && nelt > 0) ==>
+                      (g_io_total == (long long)nelt * L_IVS && (long long)g_pos == ((long long)g_p0 + nelt) * L_IVS && !g_cv_bad))
+    __CPROVER_ensures((__CPROVER_return_value == nelt && nelt > 0) ==>
+                      ((long long)g_vs->nvertices == ((long long)g_p0 + nelt > (long long)__CPROVER_old(g_vs->nvertices) ? (long long)g_p0 + nelt : (long long)__CPROVER_old(g_vs->nvertices)) &&
+                       g_vs->marked == 1))
+    /* chunking (see VSread) */
+    __CPROVER_ensures((__CPROVER_return_value == nelt && g_r >= 0 && g_r < nelt) ==> HIT_OK(nelt))
+    __CPROVER_ensures((__CPROVER_return_value == nelt && g_r >= 0 && g_r < nelt) ==> CV_OK(L_IVS))
+    __CPROVER_ensures(VTBUF_WF);
+#endif /* VRW_LOG */
 
 #ifdef H4V_NATIVE
 #include "h4v_native_wrap.h"
@@ -199,6 +497,7 @@ h_VSseek(void)
     H4V_CANARY("VSseek end");
 }
 
+#ifndef VRW_LOG
 /* ---- VSread gather (bounded): <= 2 fields of 1- or 2-byte type, order <= 2, nelt <= 2, file and
    user interlace FULL/NO, read list = any non-repeating selection of the fields.  The user buffer
    is allocated with EXACTLY nelt*uvsize bytes: any write outside it is a failed pointer check. ---- */
@@ -297,3 +596,186 @@ h_VSread(void)
     H4V_COVER(r == nelt && nf == 1 && nelt == 2, "VSread case E");
     H4V_CANARY("VSread end");
 }
+#endif /* !VRW_LOG */
+
+#ifdef VRW_LOG
+/* ---------------- log-mode harnesses ---------------- */
+typedef uint32 u32;
+H4V_DECL_ND(u32);
+#define NELT_CAP (3 * (VDATA_BUFFER_MAX / L_IVS + 1) + 5) /* up to 4 transfer-buffer chunks */
+#define TB_CAP 4000000u
+
+/* good key, vdata and layout built from constants only (cbmc then resolves vs->wlist.* to constants) */
+static VDATA *
+mk_env_log(int mode)
+{
+    static vsinstance_t w_obj;
+    static VDATA        vs_obj;
+    static int16        type[2];
+    static uint16       off[2], isize[2], order[2], esize[2];
+    static char        *name[2];
+    static int          item[2];
+    g_grp       = VSIDGROUP;
+    g_inst_null = 0;
+    g_w         = &w_obj;
+    g_vs        = &vs_obj;
+    memset(&vs_obj, 0, sizeof(VDATA));
+    w_obj.vs = &vs_obj;
+    type[0]  = L_T0;
+    order[0] = L_O0;
+    isize[0] = esize[0] = L_S0;
+    off[0]              = 0;
+    type[1]             = L_T1;
+    order[1]            = L_O1;
+    isize[1] = esize[1] = L_S1;
+    off[1]              = L_S0;
+    name[0] = name[1]   = NULL;
+    item[0]             = L_I0;
+    item[1]             = L_I1;
+    vs_obj.wlist.n      = L_NF;
+    vs_obj.wlist.ivsize = L_IVS;
+    vs_obj.wlist.type   = type;
+    vs_obj.wlist.off    = off;
+    vs_obj.wlist.isize  = isize;
+    vs_obj.wlist.order  = order;
+    vs_obj.wlist.esize  = esize;
+    vs_obj.wlist.name   = name;
+    vs_obj.rlist.n      = L_RN;
+    vs_obj.rlist.item   = item;
+    vs_obj.interlace    = FULL_INTERLACE;
+    vs_obj.aid          = 77;
+    vs_obj.access       = (mode == DFACC_WRITE) ? 'w' : 'r';
+    g_exist             = TRUE;
+    /* what the DFKconvert calls of one chunk must look like */
+    int k = 0;
+    if (mode == DFACC_READ && L_NF == 1) { /* case E: one contiguous conversion of order x chunk elements */
+        g_exp_uoff[0] = 0;
+        g_exp_xoff[0] = 0;
+        g_exp_type[0] = L_T0;
+        g_exp_ss = g_exp_ds = 0;
+        g_exp_nmul          = L_O0;
+        k                   = 1;
+    }
+    else {
+        int   nj   = (mode == DFACC_READ) ? L_RN : L_NF;
+        int32 uoff = 0;
+        for (int j = 0; j < nj; j++) {
+            int i = (mode == DFACC_READ) ? item[j] : j;
+            for (int c = 0; c < order[i]; c++) {
+                g_exp_uoff[k] = uoff + c * (esize[i] / order[i]);
+                g_exp_xoff[k] = off[i] + c * (isize[i] / order[i]);
+                g_exp_type[k] = type[i];
+                k++;
+            }
+            uoff += esize[i];
+        }
+        g_exp_nmul = 1;
+        g_exp_ss   = L_IVS;                                /* read: stored record; write: the user's record (all fields) */
+        g_exp_ds   = (mode == DFACC_READ) ? L_UVS : L_IVS; /* read: the user's record; write: stored record */
+    }
+    g_exp_ncv = k;
+    /* clean log */
+    g_mode     = mode;
+    g_io_n     = 0;
+    g_io_total = 0;
+    g_io_failed = g_hit_n = g_cv_n = g_cv_total = g_cv_bad = pend_set = fin_set = g_hit_live = g_malloc_failed = 0;
+    g_seek_n   = 0;
+    g_seek_ret = SUCCEED;
+    g_pos      = 0;
+    H4V_HAVOC(int32, g_r);
+    H4V_HAVOC(int32, g_cvk);
+    H4V_HAVOC(int32, g_io_fail_at);
+    H4V_ASSUME(g_cvk >= 0 && g_cvk < g_exp_ncv && g_io_fail_at >= 0);
+    return g_vs;
+}
+/* position (by the real VSseek), transfer buffer left by earlier calls, user buffer of exactly the
+   bytes the request may touch */
+static uint8 *
+mk_request(VDATA *vs, int32 p, int32 nvert, long long ubytes)
+{
+    H4V_ND(u32, tbsz);
+    H4V_ASSUME(tbsz <= TB_CAP);
+    vs->nvertices = nvert;
+    int32 sr      = VSseek(7, p);
+    H4V_ASSUME(sr == p);
+    g_p0      = p;
+    g_pos0    = g_pos;
+    g_elt_len = nvert * L_IVS;
+    Vtbuf     = NULL;
+    if (tbsz > 0) {
+        Vtbuf = malloc(tbsz);
+        H4V_ASSUME(Vtbuf != NULL);
+    }
+    Vtbufsize       = tbsz;
+    g_malloc_failed = 0;
+    uint8 *ubuf     = malloc(ubytes > 0 ? (size_t)ubytes : 1);
+    H4V_ASSUME(ubuf != NULL);
+    g_malloc_failed = 0;
+    g_ubuf          = ubuf;
+    g_ubuf_len      = ubytes > 0 ? ubytes : 0;
+    return ubuf;
+}
+
+void
+h_VSwrite_log(void)
+{
+    VDATA *vs = mk_env_log(DFACC_WRITE);
+    H4V_ND(int32, p);
+    H4V_ND(int32, nvert);
+    H4V_ND(int32, nelt);
+    H4V_ND(int32, il);
+    H4V_ASSUME(nvert >= 0 && nvert <= 2147483647 / L_IVS && p >= 0 && p <= 2147483647 / L_IVS);
+#ifdef VW_LIMIT /* C20: requests that would take the table beyond 2^31-1 bytes */
+    H4V_ASSUME(nelt > 0 && ((long long)p + nelt) * L_IVS > 2147483647LL);
+#else
+    H4V_ASSUME(nelt >= -3 && nelt <= NELT_CAP && ((long long)p + nelt) * L_IVS <= 2147483647LL);
+#endif
+    int32 interlace = FULL_INTERLACE;
+    if (L_NF == 1) { /* single field: the chunked path whatever the interlace */
+        H4V_ASSUME(il == FULL_INTERLACE || il == NO_INTERLACE);
+        interlace = il;
+    }
+    uint8 *ubuf = mk_request(vs, p, nvert, (long long)nelt * L_IVS);
+    H4V_ASSUME(g_r >= 0 && (g_r < nelt || g_r == 0) && ((long long)p + g_r) * L_IVS <= 2147483647LL);
+    g_rpos   = (p + g_r) * L_IVS;
+    int32  r = VSwrite(7, ubuf, nelt, interlace);
+    H4V_COVER(r == nelt && p < nvert && p + nelt > nvert, "VSwrite starts inside the table and runs past its end");
+    H4V_COVER(r == nelt && nelt > 0 && p + nelt < nvert, "VSwrite overwrites inside the table");
+    H4V_COVER(r == nelt && p == nvert && nvert > 0, "VSwrite appends");
+    H4V_COVER(r == nelt && p > nvert, "VSwrite beyond the end");
+    H4V_COVER(r == nelt && g_io_n >= 3 && g_hit_before > 0, "VSwrite in 3 or more chunks");
+    H4V_COVER(r == nelt && g_io_n == 1 && nelt > 1, "VSwrite in one transfer");
+    H4V_COVER(r == FAIL && g_io_failed && g_io_n == 2, "VSwrite: second transfer fails");
+    H4V_CANARY("VSwrite end");
+}
+
+void
+h_VSread_log(void)
+{
+    VDATA *vs = mk_env_log(DFACC_READ);
+    H4V_ND(int32, p);
+    H4V_ND(int32, nvert);
+    H4V_ND(int32, nelt);
+    H4V_ND(int32, il);
+    H4V_ASSUME(nvert >= 0 && nvert <= 2147483647 / L_IVS && p >= 0 && p <= 2147483647 / L_IVS);
+#ifdef VR_LIMIT /* requests whose byte count does not fit int32 */
+    H4V_ASSUME(nelt > 0 && (long long)nelt * L_IVS > 2147483647LL);
+#else
+    H4V_ASSUME(nelt >= -3 && nelt <= NELT_CAP);
+#endif
+    int32 interlace = FULL_INTERLACE;
+    if (L_NF == 1) {
+        H4V_ASSUME(il == FULL_INTERLACE || il == NO_INTERLACE);
+        interlace = il;
+    }
+    uint8 *ubuf = mk_request(vs, p, nvert, (long long)nelt * L_UVS);
+    H4V_ASSUME(g_r >= 0 && (g_r < nelt || g_r == 0) && ((long long)p + g_r) * L_IVS <= 2147483647LL);
+    g_rpos   = (p + g_r) * L_IVS;
+    int32  r = VSread(7, ubuf, nelt, interlace);
+    H4V_COVER(r == nelt && nelt > 0 && g_io_n >= 3 && g_hit_before > 0, "VSread in 3 or more chunks");
+    H4V_COVER(r == nelt && g_io_n == 1 && nelt > 1, "VSread in one transfer");
+    H4V_COVER(r == 0 && nelt == 0, "VSread of no record");
+    H4V_COVER(r == FAIL && nelt > 0 && p + nelt > nvert && nvert > 0, "VSread beyond the last record fails");
+    H4V_CANARY("VSread end");
+}
+#endif /* VRW_LOG */
